@@ -186,6 +186,31 @@ def run(repo: Repo, L: Ledger, tier: str):
             a = rets[0].value.args
             ok6 = len(a) == 2 and norm(a[0]) in (f"{p}.lower()", f"{p}.casefold()") and norm(a[1]) == p
     L.check(ok6, "R6", "ScaffoldNamer.get_set_haplotype", "dict.setdefault(name.lower(), name)", "haplotype names are no longer matched case-insensitively with the first spelling winning", gsh.loc() if gsh else "")
+    # every haplotype value the namer uses comes through that registrar
+    mk = namer.methods.get("make_scaffold_name")
+    hf = namer.methods.get("haplotype_from_first_row_name")
+    bad6 = []
+
+    def via_registrar(e, depth=0):
+        if isinstance(e, ast.Constant) and e.value is None:
+            return True
+        if isinstance(e, ast.Call) and isinstance(e.func, ast.Attribute) and is_name(e.func.value, "self"):
+            if e.func.attr == gsh.name:
+                return True
+            m2 = namer.methods.get(e.func.attr)
+            if m2 is not None and depth < 2:
+                rets = [r for r in walk_shallow(m2.node) if isinstance(r, ast.Return)]
+                return bool(rets) and all(r.value is None or via_registrar(r.value, depth + 1) for r in rets)
+        return False
+
+    if mk is not None and gsh is not None:
+        for n in walk_shallow(mk.node):
+            if isinstance(n, ast.Assign) and any(is_name(t, "haplotype") for t in n.targets):
+                if not via_registrar(n.value):
+                    bad6.append(norm(n)[:70])
+            if isinstance(n, ast.Assign) and any(norm(t) == "self.primary_haplotype" for t in n.targets) and not via_registrar(n.value):
+                bad6.append(norm(n)[:70])
+    L.check(not bad6 and mk is not None, "R6", "ScaffoldNamer:haplotype-sources", "every haplotype value is canonicalised through get_set_haplotype", f"a haplotype name bypasses the case-insensitive registrar: {bad6[:2]} — 'HAP2_…' scaffolds seen before the first 'Hap2' tag end up in a second assembly for the same haplotype", mk.loc() if mk else "")
 
 
 def _naming(repo: Repo, L: Ledger):
